@@ -21,6 +21,7 @@ def runs_of(labels):
 class C16(Check):
     pid = 'C16'
     validate = True
+    fork_logging = True       # DEBUG logging on/off is a symbolic input of every path
     anchors = [('src/fast_ticc/cluster_metrics.py', 'bayesian_information_criterion')]
     obligations = ['bic_matches_definition', 'bic_logdet_argument_in_double_range', 'reported_bic_uses_fitted_model']
     obligation_text = {
